@@ -354,6 +354,10 @@ def veq(a, b, st=None):
         return z3.BoolVal(a.obj == b.obj)
     if isinstance(a, VOpaque) and isinstance(b, VOpaque):
         return a.ident == b.ident
+    if isinstance(a, VOpaque) and isinstance(b, VInt):       # identities kept in ghost integer logs
+        return a.ident == b.t
+    if isinstance(a, VInt) and isinstance(b, VOpaque):
+        return a.t == b.ident
     if isinstance(a, VRef) and isinstance(b, VRef) and st is not None:
         ha, hb = st.heap[a.ref], st.heap[b.ref]
         if isinstance(ha, HList) and isinstance(hb, HList):
